@@ -10,7 +10,7 @@ ROOT = os.path.dirname(os.path.dirname(os.path.abspath(__file__)))
 ENV = dict(os.environ, GOFLAGS="-mod=mod", GOPROXY="off", GOSUMDB="off", GOTOOLCHAIN="local")
 
 def sh(cmd, cwd=None, env=None):
-    return subprocess.run(cmd, shell=True, cwd=cwd, env=env or ENV, capture_output=True, text=True)
+    return subprocess.run(cmd, shell=True, cwd=cwd, env=env or ENV, capture_output=True, text=True, errors="replace")
 
 def main():
     ids = sys.argv[1:] or sorted(os.path.basename(d) for d in glob.glob(ROOT + "/seeded/*") if os.path.isdir(d))
